@@ -231,7 +231,8 @@ def _compare_case(impl, model):
             if not has_nan and not st_nan:
                 # no state was dumped at all (the history ends in an error): the NaN shows as the error Python raises at
                 # its next update
-                has_nan = any(len(s_["status"]) >= 3 and s_["status"][1] == "err" and s_["status"][2].startswith("ENan")
+                has_nan = any(len(s_["status"]) >= 3 and s_["status"][1] == "err" and
+                              (s_["status"][2].startswith("ENan") or s_["status"][2] == "EBadPrice")   # "... because price is nan"
                               for s_ in impl["steps"][k + 1:])
             if has_nan:
                 return ("drift" if drift else "equal"), {"nan_refused_at": k}
